@@ -9,6 +9,7 @@ Line-protocol driver for C08 (`p3r_driver_c08`). One command per stdin line:
   row <m> <values…>                   opened stream of matrix m (row coefficients ++ salt)
   sib <DG values>                     next sibling digest
   cap <DG values>                     next cap entry
+  pay <j> <values…>                   prover-chosen private payload (base coefficients) of path row j
   go                                  → `res <cid> native <verdict> circuit <verdict> ctrace <n> <fnv>`
 
 Everything is computed by the definitions of `P3R.Model.MmcsNative` / `MmcsCircuit`
@@ -52,6 +53,7 @@ structure Case where
   rows : List (Nat × List Nat)
   sibs : List (List Nat)
   cap : List (List Nat)
+  pays : List (Nat × List Nat)
 
 structure St where
   g : Option Grp
@@ -97,9 +99,14 @@ def runCase (g : Grp) (c : Case) : String :=
     | .error e => nerrStr e
   let bits : List K := (List.range g.nbits).map fun k => PF.ofNat ((c.idx >>> k) % 2)
   let pc : PermCfg := { W := g.W, rate := g.rate, capw := g.dig, arity4 := g.arity == 4 }
+  let pays : List (Nat × List K) := c.pays.map fun p => (p.1, lift p.2)
   let (cv, st) :=
-    if g.arity == 2 then verifyCircuit2 g.chk perm pc cap g.dims bits streams sibs
-    else verifyCircuit4 g.chk perm pc cap g.dims bits streams sibs
+    if pays.isEmpty then
+      if g.arity == 2 then verifyCircuit2 g.chk perm pc cap g.dims bits streams sibs
+      else verifyCircuit4 g.chk perm pc cap g.dims bits streams sibs
+    else
+      if g.arity == 2 then verifyCircuit2P g.chk perm pc pays cap g.dims bits streams sibs
+      else verifyCircuit4P g.chk perm pc pays cap g.dims bits streams sibs
   let tr := st.trace.reverse.map (·.map (·.val))
   let (n, h) := match cv with
     | .ok | .reject => (tr.length, fnv tr)
@@ -133,7 +140,7 @@ def step (st : St) (line : String) : St × List String :=
     | none => (st, ["bad-state"])
   | ["case", cid, "idx", i] =>
     match st.g, i.toNat? with
-    | some _, some i => ({ st with c := some { cid, idx := i, rows := [], sibs := [], cap := [] } }, [])
+    | some _, some i => ({ st with c := some { cid, idx := i, rows := [], sibs := [], cap := [], pays := [] } }, [])
     | _, _ => (st, ["bad-state"])
   | "row" :: m :: vals =>
     match st.c, m.toNat?, parseNats vals with
@@ -147,6 +154,10 @@ def step (st : St) (line : String) : St × List String :=
     match st.c, parseNats vals with
     | some c, some v => ({ st with c := some { c with cap := c.cap ++ [v] } }, [])
     | _, _ => (st, ["bad-state"])
+  | "pay" :: j :: vals =>
+    match st.c, j.toNat?, parseNats vals with
+    | some c, some j, some v => ({ st with c := some { c with pays := c.pays ++ [(j, v)] } }, [])
+    | _, _, _ => (st, ["bad-state"])
   | ["go"] =>
     match st.g, st.c with
     | some g, some c => ({ st with c := none }, [runCase g c])
